@@ -3,3 +3,4 @@ pub mod util;
 pub mod fam_hash;
 pub mod fam_hll;
 pub mod fam_theta;
+pub mod fam_fi;
